@@ -72,3 +72,9 @@ claim("C08",
       "Decides that the log and the statistics are each written from one place, only on the true edge of decisions that are true only after the client's ignore flag was consulted and with a negative ignore-list lookup for the queried host, with identifier lists that always contain the client address; that the loaded anonymiser runs on the address slice before both decisions and both records and that exactly that slice (and the string computed from it afterwards) is what gets recorded; that file entries are re-checked against ignore list and client flag and the API applies the current anonymiser; that the anonymiser is installed exactly when the setting is on; and that the mask zeroes the constant regions [2:4) of the To4 form and [6:16) of the 16-byte form. "
       "Ignore-pattern semantics, name normalisation and entries recorded before a configuration change are not decided.",
       "DESIGN.md §5 C08")
+
+claim("C03",
+      "CFG edge guards and phi-leaf classification of the access decision on SSA, static-callee reachability from the pre-request hook, asserted shape of the pinned dnsproxy hook order (static analysis)",
+      "Decides that the access check is installed as the proxy's pre-request hook and runs before any handler, that a request is admitted only with a negative client verdict and (single question) a negative blocked-host verdict and otherwise leaves through preBlockedResponse, that nothing reachable from the hook logs, counts or resolves, that UDP and DNSCrypt get no packet back while every other transport gets REFUSED, that allow-list mode is derived from all three allowed collections, that allowed/disallowed collections are consulted only in their mode, that 'blocked' is produced only under the allow-list rule (both excluded) or the block-list rule (one excluded), and that the three parts of the decision read one snapshot under the server lock. "
+      "CIDR containment, zones, ClientID case and blocked-host pattern semantics are value-level and not decided.",
+      "DESIGN.md §5 C03")
